@@ -14,6 +14,7 @@ import (
 	"regexp"
 	"strings"
 	"sync/atomic"
+	"unicode/utf8"
 )
 
 const (
@@ -445,6 +446,11 @@ func (tx *Transaction) VerifyTxBody(chainID uint16, timeStamp uint64, isBlockTx 
 		}
 	}
 
+	// the JSON form (RPC, box payloads) can only carry valid UTF-8 text
+	if !utf8.ValidString(tx.Message()) {
+		log.Warnf("The message field in transaction is not valid UTF-8")
+		return ErrTxMessage
+	}
 	txMessageLength := len(tx.Message())
 	if txMessageLength > MaxTxMessageLength {
 		log.Warnf("The length of message field in transaction is out of max length limit. message length = %d. max length limit = %d. ", txMessageLength, MaxTxMessageLength)
